@@ -43,49 +43,47 @@ Definition lower (s : str) : str := map lower1 s.
 Record group := Group { g_name : str; g_meths : list str }.
 Record plug := Plug { p_name : str; p_meths : list str; p_groups : list group; p_threaded : bool }.
 
-(* DisabledCommands.d : canonical command -> None (everywhere) | set of canonical plugin names *)
-Definition dis := list (str * option (list str)).
+(* DisabledCommands: self.everywhere (canonical command names disabled in every plugin) and
+   self.d (canonical command -> set of canonical plugin names); the two are independent *)
+Record dis := Dis { d_all : list str; d_per : list (str * list str) }.
+Definition dis_empty : dis := Dis [] [].
+Definition memG (k : str) (G : list str) : bool := existsb (seq_eqb k) G.
+Definition per_has (q k : str) (per : list (str * list str)) : bool :=
+  match dict_get k per with
+  | Some set => existsb (seq_eqb q) set
+  | None => false
+  end.
 
 Definition dis_disabled (d : dis) (command plugin : str) : bool :=
-  match dict_get (canon command) d with
-  | None => false
-  | Some None => true
-  | Some (Some set) => existsb (seq_eqb (canon plugin)) set
-  end.
+  memG (canon command) (d_all d) || per_has (canon plugin) (canon command) (d_per d).
+
+Definition set_add (q : str) (set : list str) : list str := if existsb (seq_eqb q) set then set else set ++ [q].
+Definition set_remove (q : str) (set : list str) : list str := filter (fun x => negb (seq_eqb q x)) set.
 
 Definition dis_add (d : dis) (command : str) (plugin : option str) : dis :=
   match plugin with
-  | None => dict_set (canon command) None d
+  | None => Dis (set_add (canon command) (d_all d)) (d_per d)
   | Some p =>
-      match dict_get (canon command) d with
-      | Some None => d
-      | Some (Some set) =>
-          dict_set (canon command)
-                   (Some (if existsb (seq_eqb (canon p)) set then set else set ++ [canon p])) d
-      | None => dict_set (canon command) (Some [canon p]) d
-      end
+      Dis (d_all d)
+          (match dict_get (canon command) (d_per d) with
+           | Some set => dict_set (canon command) (set_add (canon p) set) (d_per d)
+           | None => dict_set (canon command) [canon p] (d_per d)
+           end)
   end.
 
-(* del self.d[command] *)
-Definition dict_del {A} (k : str) (d : list (str * A)) : list (str * A) :=
-  filter (fun kv => negb (seq_eqb k (fst kv))) d.
-
-(* DisabledCommands.remove: KeyError when the command has no entry, or the plugin is not in its set;
-   a per-plugin removal on an everywhere-entry (None) is a no-op without error *)
+(* DisabledCommands.remove: set.remove / dict lookup raise KeyError when the entry is missing *)
 Definition dis_remove (d : dis) (command : str) (plugin : option str) : res dis :=
-  match dict_get (canon command) d with
-  | None => Raise KeyError
-  | Some v =>
-      match plugin with
-      | None => Ok (dict_del (canon command) d)
-      | Some p =>
-          match v with
-          | None => Ok d
-          | Some set =>
-              if existsb (seq_eqb (canon p)) set
-              then Ok (dict_set (canon command) (Some (filter (fun x => negb (seq_eqb (canon p) x)) set)) d)
-              else Raise KeyError
-          end
+  match plugin with
+  | None =>
+      if memG (canon command) (d_all d) then Ok (Dis (set_remove (canon command) (d_all d)) (d_per d))
+      else Raise KeyError
+  | Some p =>
+      match dict_get (canon command) (d_per d) with
+      | None => Raise KeyError
+      | Some set =>
+          if existsb (seq_eqb (canon p)) set
+          then Ok (Dis (d_all d) (dict_set (canon command) (set_remove (canon p) set) (d_per d)))
+          else Raise KeyError
       end
   end.
 
@@ -127,7 +125,7 @@ Definition owner_step (st : ostate) (o : op) : ostate * bool :=
       | Ok d' =>
           if conf_has (conf_key plugin c) (o_conf st)                        (* ... then the registry value *)
           then (OState d' (conf_remove (conf_key plugin c) (o_conf st)), true)
-          else (OState d' (o_conf st), false)                               (* KeyError: reported as refused, d' stays *)
+          else (OState d' (o_conf st), false)                               (* KeyError: reported as refused, d' stays (unreachable while table and registry agree) *)
       end
   end.
 
@@ -137,7 +135,6 @@ Definition owner_run (st : ostate) (ops : list op) : ostate :=
 (* ---- documented semantics: disabled everywhere until enabled everywhere, disabled in a plugin until
    enabled in that plugin, a refused operation changes nothing ---- *)
 Record sstate := SState { s_G : list str; s_P : list (str * str) }.   (* canonical names *)
-Definition memG (k : str) (G : list str) : bool := existsb (seq_eqb k) G.
 Definition memP (q k : str) (P : list (str * str)) : bool :=
   existsb (fun e => seq_eqb q (fst e) && seq_eqb k (snd e)) P.
 Definition anyP (k : str) (P : list (str * str)) : bool := existsb (fun e => seq_eqb k (snd e)) P.
@@ -162,19 +159,6 @@ Definition spec_step (S : sstate) (o : op) : sstate * bool :=
   end.
 Definition spec_run (S : sstate) (ops : list op) : sstate := fold_left (fun s o => fst (spec_step s o)) ops S.
 
-(* histories on which the pinned code follows the documented semantics: no everywhere-disable and no
-   (refused) everywhere-enable of a command that currently has per-plugin entries *)
-Definition bad_op (S : sstate) (o : op) : bool :=
-  match o with
-  | ODisable None c => negb (forbidden c) && anyP (canon c) (s_P S)
-  | OEnable None c => negb (memG (canon c) (s_G S)) && anyP (canon c) (s_P S)
-  | _ => false
-  end.
-Fixpoint hist_dom (S : sstate) (ops : list op) : bool :=
-  match ops with
-  | [] => true
-  | o :: ops' => negb (bad_op S o) && hist_dom (fst (spec_step S o)) ops'
-  end.
 End OwnerOps.
 
 Record env := Env {
@@ -592,7 +576,7 @@ Definition gKind (v : value) : kind :=
 (* env: (plugins, disable-ops [(command, () | (plugin))], extra defaults [(command, plugin)], important) *)
 Definition gEnv (v : value) : env :=
   Env (map gPlug (gL (nth_v 0 v)))
-      (fold_left (fun d op => dis_add d (gS (nth_v 0 op)) (gO gS (nth_v 1 op))) (gL (nth_v 1 v)) [])
+      (fold_left (fun d op => dis_add d (gS (nth_v 0 op)) (gO gS (nth_v 1 op))) (gL (nth_v 1 v)) dis_empty)
       (fold_left (fun d kv => dict_set (gS (nth_v 0 kv)) (gS (nth_v 1 kv)) d) (gL (nth_v 2 v)) gen.T14.OWNER_DEFAULTS)
       (gLS (nth_v 3 v)).
 Definition gBehs (v : value) : behs :=
@@ -628,7 +612,7 @@ Definition has_cmd_of (cbs : list plug) (p c : str) : bool :=
   | Some q => seq_eqb c (canon c) && existsb (seq_eqb c) (p_meths q)
   | None => false
   end.
-Definition vDis (d : dis) : value := L (map (fun kv => L [vS (fst kv); vO vLS (snd kv)]) d).
+Definition vDis (d : dis) : value := L [vLS (d_all d); L (map (fun kv => L [vS (fst kv); vLS (snd kv)]) (d_per d))].
 
 Fixpoint hist_run (E : env) (B : behs) (K : config) (st : ostate) (steps : list value) : list value :=
   match steps with
